@@ -27,14 +27,9 @@ def r2(cx, h):
     body, cfg, du = h.body, h.cfg, h.du
     # the `?` on from_slice(..).map_err(..): find the Try::branch fed by it and its discriminant switch
     sl = Slice(body, du)
-    branch = None
-    for t in body.calls("=branch"):
-        for k, o in sl.origins(t.args[0]):
-            if k == "call" and o is h.from_slice: branch = t
-    if branch is None: raise AnchorMissing("handle: `?` on serde_json::from_slice not found")
-    sw = body.blocks[branch.target].term
-    if sw.kind != "switch": raise AnchorMissing("handle: no switch after from_slice `?`")
-    ok_edge = variant_edge(sw, 0); err_edge = variant_edge(sw, 1)
+    from vlib.cfg import question_mark_edges
+    ok_edge, err_edge = question_mark_edges(body, du, h.from_slice)
+    if ok_edge is None: raise AnchorMissing("handle: `?` on serde_json::from_slice not found")
     ru_blocks = {t.bb for t in h.read_untils}
     disp_blocks = {t.bb: t for t in h.dispatch}
     cx.floor("C01.R2", "dispatch sites in handle()", len(h.dispatch), 2)
